@@ -39,6 +39,7 @@ Proof.
   intros Rx HJ Hp Hrm. destruct o; cbn [hpre a_pre] in *; try reflexivity.
   - auto.
   - now rewrite (r_xs _ _ _ Rx).
+  - now rewrite (r_xs _ _ _ Rx).
   - destruct (Hrm a eq_refl) as (v & Hv & Hvd). rewrite Hv, Hvd in Hp. cbn in Hp. apply Nat.eqb_eq in Hp.
     rewrite (r_xs _ _ _ Rx), (xpeek_live _ _ _ Hv Hvd). unfold absv, view. now rewrite Hp.
   - rewrite (r_xs _ _ _ Rx). destruct (xpeek h a) as [[v l]|]; [|auto].
@@ -61,6 +62,7 @@ Proof.
   - destruct (sim_fund _ _ _ _ _ W Rx Hs); auto.
   - destruct (sim_create _ _ _ _ _ _ _ _ _ W Rx HJ Hs); auto.
   - destruct (sim_update _ _ _ _ _ _ W Rx HJ Hs); auto.
+  - destruct (sim_update_in _ _ _ _ _ _ W Rx HJ Hs); auto.
   - destruct (sim_remove _ _ _ _ _ W Rx HJ Hp Hs); auto.
   - destruct (sim_delegate _ _ _ _ _ _ _ W Rx HJ Hp Hs) as [A B]. auto.
   - destruct (sim_snapshot _ _ _ _ W Rx Hs); auto.
